@@ -16,6 +16,14 @@ def _frag(name):
 
     if name == "one":
         return Hugr(ops.Custom("frag_one", tys.FunctionType.empty(), "d", "e.x"))
+    if name == "split":  # a two-output op whose second output is not connected (yet)
+        d = Dfg(tys.Bool)
+        n = d.add_op(ops.Custom("split", tys.FunctionType([tys.Bool], [tys.Bool, tys.Bool], ["e.x"]), "", "e.x"), d.inputs()[0])
+        d.set_outputs(n[0])
+        # ... and a two-input op whose second input is not connected (yet): the later link stays inside both signatures
+        sink = d.hugr.add_node(ops.Custom("sink", tys.FunctionType([tys.Bool, tys.Bool], [], ["e.x"]), "", "e.x"), d.parent_node)
+        d.hugr.add_link(d.input_node.out(0), sink.inp(0))
+        return d.hugr
     d = Dfg(tys.Bool)
     n = d.add(Not(d.inputs()[0]), metadata={"m": [1, "é"]})
     d.add_state_order(d.input_node, n)
@@ -48,6 +56,9 @@ def menu(h, tier="quick"):
             out.append(["addnode", p.idx, "fnconst"])
         out.append(["insert", "one", p.idx])
         out.append(["insert", "dfg", p.idx])
+    # insert a fragment, then connect a port of the *inserted copy* that was not connected in the fragment
+    out.append(["insertlink", h.root.idx])
+    out.append(["insertdef", "dfg"])  # the documented default of insert_hugr: parent omitted = under the root
     vals = META_VALUES if tier == "thorough" else META_VALUES[:2] + META_VALUES[5:]
     for i, n in enumerate([nodes[0], nodes[-1]]):
         for j, v in enumerate(vals):
@@ -106,6 +117,15 @@ def apply(h, m):
             h.add_const(val.Tuple(val.TRUE, val.FALSE), Node(m[1]))
     elif k == "insert":
         h.insert_hugr(_frag(m[1]), Node(m[2]))
+    elif k == "insertdef":
+        h.insert_hugr(_frag(m[1]))
+    elif k == "insertlink":
+        frag = _frag("split")
+        mp = h.insert_hugr(frag, Node(m[1]))
+        split = next(n for n in frag if isinstance(frag[n].op, ops.Custom) and frag[n].op.op_name == "split")
+        sink = next(n for n in frag if isinstance(frag[n].op, ops.Custom) and frag[n].op.op_name == "sink")
+        observe(h, render=True)  # the inserted copy is looked at before it is touched
+        h.add_link(mp[split].out(1), mp[sink].inp(1))
     elif k == "meta":
         h[Node(m[1])].metadata[m[2]] = m[3]
     elif k == "dellink":
@@ -142,7 +162,7 @@ def observe(h, render=False):
             pass
 
 
-LOADED_KINDS = ("del", "addnode", "insert", "meta", "dellink", "order", "deladd", "reuse")
+LOADED_KINDS = ("del", "addnode", "insert", "insertlink", "insertdef", "meta", "dellink", "order", "deladd", "reuse")
 
 
 def first_of_each(menu_, kinds):
@@ -174,6 +194,10 @@ def translate(m, h, l):
         return [k, t(m[1])]
     if k == "addnode":
         return [k, t(m[1]), m[2]]
+    if k == "insertlink":
+        return [k, t(m[1])]
+    if k == "insertdef":
+        return list(m)
     if k == "insert":
         return [k, m[1], t(m[2])]
     if k == "meta":
